@@ -29,17 +29,24 @@ pub struct Case {
     pub rscript: RScript,
 }
 
-/// Bytes that cannot begin an id of any specification used here: 0x00 (no length marker) and
-/// 0x08..=0x0F (5-byte ids, which the generator keeps out of the specification).
-const JUNK: [u8; 9] = [0x00, 0x08, 0x09, 0x0A, 0x0B, 0x0C, 0x0D, 0x0E, 0x0F];
+/// Bytes that cannot begin an id of the specification: every byte value that is not the first byte
+/// of any declared id (0x00 has no length marker at all). The generator additionally keeps
+/// 0x08..=0x0F free of ids, so the alphabet always contains long-id markers.
+fn junk_alphabet(spec: &SpecTable) -> Vec<u8> {
+    let firsts: Vec<u8> = spec.elems.iter().map(|e| enc::id_bytes(e.id)[0]).collect();
+    (0u8..=255).filter(|b| !firsts.contains(b)).collect()
+}
 
-fn gen_junk(rng: &mut Rng) -> Vec<u8> {
+fn gen_junk(rng: &mut Rng, alphabet: &[u8]) -> Vec<u8> {
     let n = match rng.below(4) {
         0 => 1,
         1 => rng.range(1, 3),
         _ => rng.range(1, 12),
     };
-    (0..n).map(|_| *rng.pick(&JUNK)).collect()
+    // half of the runs from the long-id markers (their bogus ids swallow following real bytes)
+    let long: Vec<u8> = alphabet.iter().copied().filter(|b| *b < 0x20).collect();
+    let pool: &[u8] = if !long.is_empty() && rng.chance(1, 2) { &long } else { alphabet };
+    (0..n).map(|_| *rng.pick(pool)).collect()
 }
 
 fn check_one(c: &Case, e: &Encoded, b: usize, junk: &[u8], st: &mut Stats) -> Result<(), Fail> {
@@ -177,7 +184,8 @@ impl Check for C14 {
         st.inc("documents");
         match &c.at {
             Some((b, junk)) => {
-                if !e.layout.boundaries(e.bytes.len()).contains(b) || junk.iter().any(|x| !JUNK.contains(x)) || junk.is_empty() {
+                let alphabet = junk_alphabet(&c.spec);
+                if !e.layout.boundaries(e.bytes.len()).contains(b) || junk.iter().any(|x| !alphabet.contains(x)) || junk.is_empty() {
                     st.inc("out_of_scope");
                     return Ok(ExecOk { nontrivial: false });
                 }
@@ -185,9 +193,10 @@ impl Check for C14 {
             }
             None => {
                 let mut jr = Rng::new(c.jseed);
+                let alphabet = junk_alphabet(&c.spec);
                 for b in e.layout.boundaries(e.bytes.len()) {
                     for _ in 0..3 {
-                        let junk = gen_junk(&mut jr);
+                        let junk = gen_junk(&mut jr, &alphabet);
                         check_one(c, &e, b, &junk, st)?;
                     }
                 }
@@ -238,9 +247,10 @@ impl Check for C14 {
         match &c.at {
             None => {
                 let mut jr = Rng::new(c.jseed);
+                let alphabet = junk_alphabet(&c.spec);
                 for b in e.layout.boundaries(e.bytes.len()) {
                     for _ in 0..3 {
-                        let junk = gen_junk(&mut jr);
+                        let junk = gen_junk(&mut jr, &alphabet);
                         v.push(Case { at: Some((b, junk)), ..c.clone() });
                     }
                 }
@@ -271,10 +281,10 @@ impl Check for C14 {
     }
 
     fn rule(&self) -> &'static str {
-        "One case = specification (no id begins with 0x08-0x0F) + valid known-size document for which EVERY tag boundary (including 0 and the end) receives 3 drawn junk runs of 1-12 bytes from {0x00, 0x08..0x0F}; driver: next() until an error, try_recover(), continue. When, by the layout, the following tag shifted by the junk length still fits every enclosing known-size master: tags before unchanged, exactly one error, try_recover() Ok, all remaining tags identical with offsets shifted. Always: non-End offsets strictly increase, no panic, try_recover() fails only with UnexpectedEOF/ReadError. Non-trivial: document with at least two elements. 'evaluations' counts documents; insertions are in counters.junk_insertions."
+        "One case = specification (no id begins with 0x08-0x0F) + valid known-size document for which EVERY tag boundary (including 0 and the end) receives 3 drawn junk runs of 1-12 bytes from the byte values that begin no id of the specification (always including 0x00 and the 5-byte-id markers 0x08..0x0F); driver: next() until an error, try_recover(), continue. When, by the layout, the following tag shifted by the junk length still fits every enclosing known-size master: tags before unchanged, exactly one error, try_recover() Ok, all remaining tags identical with offsets shifted. Always: non-End offsets strictly increase, no panic, try_recover() fails only with UnexpectedEOF/ReadError. Non-trivial: document with at least two elements. 'evaluations' counts documents; insertions are in counters.junk_insertions."
     }
     fn assumptions(&self) -> Vec<&'static str> {
-        vec!["junk bytes are drawn from byte values that cannot begin an id of the specification in force (0x00 has no length marker; 5-byte ids are kept out of the generated specifications)", "the precondition of the main clause is evaluated on the reference encoder's layout"]
+        vec!["junk bytes are drawn from byte values that are not the first byte of any id of the specification in force (0x00 has no length marker; 5-byte ids are kept out of the generated specifications so that long-id markers are always available)", "the precondition of the main clause is evaluated on the reference encoder's layout"]
     }
     fn expected_probes(&self) -> Vec<&'static str> {
         vec!["precondition_holds", "precondition_fails", "junk_at_end_of_input", "probe_recovery_inside_known_size_master"]
